@@ -17,7 +17,9 @@ Open Scope N_scope.
 (* ------------------------------------------------------------------ elements *)
 
 Inductive qkind := QOrd | QWs | QSpecial.
-Record qitem := QI { q_print : str; q_mean : str; q_kind : qkind }.
+(* q_ns: the item must be followed by a character that is neither white space nor a break
+   (escaped line break: it swallows the following white space) *)
+Record qitem := QI { q_print : str; q_mean : str; q_kind : qkind; q_ns : bool }.
 Inductive qel := QItem (it : qitem) | QBrk (tws : str) (k : nat) (ind : str).
 
 Definition print_el (e : qel) : str :=
@@ -50,7 +52,17 @@ Definition item_ok (double : bool) (it : qitem) : Prop :=
       exists c r, q_print it = c :: r /\ mem_N c in_scan_flow_scalar_non_spaces_0 = true /\ solid c /\
         Forall nocr (q_print it) /\
         forall s rest', s_rest s = q_print it ++ rest' ->
-          flow_ns_branch s double = Ok (Some (after s (q_print it), [q_mean it]))
+          (q_ns it = true -> exists c t, rest' = c :: t /\ solid c) ->
+          exists cs, flow_ns_branch s double = Ok (Some (after s (q_print it), cs)) /\
+                     concat cs = q_mean it
+  end.
+
+(* the next element, if any, is an item that is not white space *)
+Definition next_solid (E : list qel) : Prop :=
+  match E with
+  | [] => True
+  | QItem it :: _ => q_kind it <> QWs
+  | QBrk _ _ _ :: _ => False
   end.
 
 Fixpoint els_wf (double : bool) (E : list qel) : Prop :=
@@ -59,6 +71,7 @@ Fixpoint els_wf (double : bool) (E : list qel) : Prop :=
   | QItem it :: E' =>
       item_ok double it /\
       (q_kind it = QWs -> match E' with QBrk _ _ _ :: _ => False | _ => True end) /\
+      (q_ns it = true -> next_solid E') /\
       els_wf double E'
   | QBrk tws k ind :: E' =>
       Forall wsq tws /\ Forall wsq ind /\
@@ -171,18 +184,22 @@ Qed.
 (* a special item: one more round *)
 Lemma ns_special double fns s run it rest' nsch : Forall ordc run ->
   q_kind it = QSpecial -> item_ok double it ->
+  (q_ns it = true -> exists c t, rest' = c :: t /\ solid c) ->
   s_rest s = run ++ q_print it ++ rest' ->
+  exists cs, concat cs = q_mean it /\
   flow_non_spaces_f (S fns) s double nsch =
-  flow_non_spaces_f fns (after s (run ++ q_print it)) double (nsch ++ chunk_of run ++ [q_mean it]).
+  flow_non_spaces_f fns (after s (run ++ q_print it)) double (nsch ++ chunk_of run ++ cs).
 Proof.
-  intros HF Hk Hit Hr. unfold item_ok in Hit. rewrite Hk in Hit.
+  intros HF Hk Hit Hsol Hr. unfold item_ok in Hit. rewrite Hk in Hit.
   destruct Hit as (c & r & Ep & Hc0 & _ & _ & Hbr).
+  destruct (Hbr (after s run) rest' (rest_after _ _ _ Hr) Hsol) as (cs & Hb & Hcs).
+  exists cs. split; [exact Hcs|].
   cbn [flow_non_spaces_f].
   assert (Hr' : s_rest s = run ++ c :: (r ++ rest')) by (rewrite Hr, Ep; reflexivity).
   rewrite (ns_count s run c _ HF Hc0 Hr'). cbn [bind].
   rewrite (chunks1_eq nsch s run _ Hr).
   rewrite (forward_after run s _ (Forall_ordc_nocr _ HF) Hr). cbn [bind].
-  rewrite (Hbr (after s run) rest' (rest_after _ _ _ Hr)). cbn [bind].
+  rewrite Hb. cbn [bind].
   rewrite <- after_app, <- app_assoc. reflexivity.
 Qed.
 
@@ -289,16 +306,8 @@ Definition sp_pre (wsrun : str) (E : list qel) : Prop :=
   | QBrk _ _ _ :: _ => wsrun = []
   end.
 
-(* first character of what follows, when it is not white space *)
-Definition next_solid (double : bool) (quote : N) (E : list qel) : Prop :=
-  match E with
-  | [] => True
-  | QItem it :: _ => q_kind it <> QWs
-  | QBrk _ _ _ :: _ => False
-  end.
-
 Lemma els_head_solid double quote E x t : quote_ok double quote -> els_wf double E ->
-  next_solid double quote E ->
+  next_solid E ->
   exists c r, print_els E ++ quote :: x :: t = c :: r /\ solid c.
 Proof.
   intros Hq Hwf Hn. destruct E as [|[it|tws k ind] E']; cbn [next_solid] in Hn.
@@ -387,7 +396,7 @@ Section Machine.
   Lemma machine_cons e E : els_wf double (e :: E) -> PNS E /\ PSP E -> PNS (e :: E) /\ PSP (e :: E).
   Proof.
     intros Hwf [IHN IHS]. destruct e as [it|tws k ind].
-    - cbn [els_wf] in Hwf. destruct Hwf as (Hit & Hwsb & Hwf').
+    - cbn [els_wf] in Hwf. destruct Hwf as (Hit & Hwsb & Hnsol & Hwf').
       pose proof Hit as Hit0. unfold item_ok in Hit.
       destruct (q_kind it) eqn:Ek.
       + (* ordinary character *)
@@ -460,15 +469,19 @@ Section Machine.
           destruct (req E) as [n p] eqn:Ereq. cbn [fst] in Hf.
           destruct fns as [|fns]; [lia|]. unfold ns_loop.
           assert (Hr' : s_rest s = run ++ q_print it ++ (print_els E ++ ENDT)) by (rewrite Hr, <- ?app_assoc; reflexivity).
-          rewrite (ns_special double fns s run it _ nsch HF Ek Hit0 Hr').
-          destruct (IHN [] (after s (run ++ q_print it)) (nsch ++ chunk_of run ++ [q_mean it]) chunks c1 fns f) as (CH & H1 & H2).
+          assert (Hsol : q_ns it = true -> exists c t, print_els E ++ ENDT = c :: t /\ solid c).
+          { intros Hns. destruct (els_head_solid double quote E x tl Hq Hwf' (Hnsol Hns)) as (c' & r' & Ec & Hc').
+            exists c', r'. split; [exact Ec | exact Hc']. }
+          destruct (ns_special double fns s run it _ nsch HF Ek Hit0 Hsol Hr') as (cs & Hcat & Hstep).
+          rewrite Hstep.
+          destruct (IHN [] (after s (run ++ q_print it)) (nsch ++ chunk_of run ++ cs) chunks c1 fns f) as (CH & H1 & H2).
           - constructor.
           - cbn [app]. apply rest_after. rewrite Hr', <- ?app_assoc. reflexivity.
           - cbn [length] in Hfns. lia.
           - rewrite Ereq. exact Hf.
           - unfold ns_loop in H1. exists CH. split.
             + rewrite H1. cbn [app]. rewrite <- after_app, <- ?app_assoc. reflexivity.
-            + rewrite H2. ccat2. }
+            + rewrite H2. rewrite <- Hcat. ccat2. }
         split; [exact HN|].
         intros wsrun s chunks f HF Hr Hf Hpre. cbn [sp_pre] in Hpre. rewrite Ek in Hpre.
         destruct Hpre as [Hpre|Hpre]; [discriminate|].
@@ -491,7 +504,7 @@ Section Machine.
           -- rewrite H2. cbn [mean_els flat_map mean_el]. ccat2.
     - (* a line break *)
       cbn [els_wf] in Hwf. destruct Hwf as (Htws & Hind & Hnext & Hwf').
-      assert (Hns : next_solid double quote E).
+      assert (Hns : next_solid E).
       { destruct E as [|[it'|? ? ?] E']; cbn [next_solid]; auto. }
       assert (HS : PSP (QBrk tws k ind :: E)).
       { intros wsrun s chunks f HF Hr Hf Hpre. cbn [sp_pre] in Hpre. subst wsrun. cbn [app] in Hr |- *.
